@@ -14,6 +14,7 @@ def check(ctx):
     # 'the pattern listed first' = first position in terminal_ids, built in pattern order
     from .pC01 import priority_rules
     priority_rules(ctx)
+    kernel.token_type_uniqueness(ctx, "C01.k", "priority-key-is-the-token-type-but-token-types-may-repeat", "ties between candidates are resolved by the first position of their token types, not of the patterns")
     from .common import cache_foundation, language_foundation
     language_foundation(ctx)
     cache_foundation(ctx)
